@@ -93,11 +93,18 @@ def cases(tier, seed):
         out.append(Case("2x2x2 Inversion niter=2", case_run, dict(NKdiv=(2, 2, 2), gens=["Inversion"], niter=2, adpt_fac=1, adpt_mesh=2, store={}), timeout=3000))
         out.append(Case("2x1x1 noSym niter=3 mesh=(2,1,1)", case_run, dict(NKdiv=(2, 1, 1), gens=[], niter=3, adpt_fac=1, adpt_mesh=(2, 1, 1), store=dict(dump_results=True)), timeout=3000))
         out.append(Case("3x1x1 C2z niter=2 fac=2", case_run, dict(NKdiv=(3, 1, 1), gens=["C2z"], niter=2, adpt_fac=2, adpt_mesh=2, store=dict(allow_restart=True)), timeout=3000))
+    # a run continued from the files of an earlier iteration (harness of C11): its obligations "saved result == weighted sum over the current K list"
+    # and "weights sum to one" are this property on the K lists a restart produces
+    from props import c11
+    out += [c for c in c11.cases(tier, seed) if "continued from the earlier iteration" in c.name and ("store=restart" in c.name or not q)]
     return out
 
 
 def replay(rec):
     w = rec["witness"]
+    if w.get("test") == "earlier":
+        from props import c11
+        return c11.replay_earlier(w)
     reg = D.ConcreteRegistry(w["values"])
     reg.nprio = w["nprio"]
     obs = D.ConcreteObserver(reg)
